@@ -604,6 +604,16 @@ func (r *runner) confirm(fn *ssa.Function, name string, tc *TierCfg, v *sym.Viol
 		return c
 	}
 	ok, detail := outcomeMatches(out, v.Label)
+	// A native run that passes may have been lucky: Go randomises map iteration order (the symbolic run explores
+	// insertion order and its reverse), goroutines are scheduled differently.  Replay a few more times; the
+	// counterexample counts as reproduced if any run fails with the expected label.
+	for try := 0; !ok && out.outcome == "ok" && try < 6; try++ {
+		if out2, err2 := r.runNative(rc.Dir, path); err2 == nil {
+			if ok2, d2 := outcomeMatches(out2, v.Label); ok2 {
+				ok, detail = true, d2+fmt.Sprintf(" (on native attempt %d)", try+2)
+			}
+		}
+	}
 	c.detail = detail
 	if ok {
 		c.status = "confirmed"
